@@ -459,7 +459,8 @@ func (k Keeper) buildRequest(
 
 	if !superMode {
 		binding, _ := k.GetServiceBinding(ctx, serviceName, provider)
-		serviceFee = k.GetPrice(ctx, consumer, binding)
+		// the fee is the price the consumer was charged for this provider, i.e. exchanged into the base denom
+		serviceFee, _, _ = k.GetExchangedPrice(ctx, consumer, binding)
 	}
 
 	return types.NewCompactRequest(
